@@ -214,6 +214,7 @@ EVH_ALPHA = [b"a", b"b", b".", b":", b"[", b"]", b"/"]
 UTF8_BYTES = [b"\xc3", b"\xa9", b"\xe2", b"\x82", b"\xac", b"\xf0", b"\x9f", b"\x98", b"\x80", b"\xed", b"\xa0",
               b"\xc0", b"\xff", b"\xe0", b"\xf4", b"\x90", b"a", b"/", b"\xbf", b"\xc2", b"\xe1", b"\xef", b"\xf1", b"\x8f"]
 XDOCS = [[], [b"/x/"], [b"/x/", b"/y/z/"], [b"/X/"], [b"/"]]
+XSF_STATUSES = [200, 403, 502, 404, 500, 206, 301]      # statuses a backend may have set itself next to X-Sendfile
 DAV_SRC = [(b"/dav/a.txt", None), (b"/dav/sub/a", None), (b"/a", None), (b"/dav/", None), (b"/dav/a.txt", b"/srv/alias/a.txt"),
            (b"/dav/sub/a", b"/srv/other/dav/sub/a"), (b"/dav/a", b"/x"), (b"/dav/a b", None), (b"/dav/A.txt", None)]
 DAV_DEST = [b"/dav/b.txt", b"/dav/sub/b", b"/dav/../../etc/passwd", b"/dav/%2e%2e/%2e%2e/etc/passwd", b"/dav/..%2fx",
@@ -339,11 +340,28 @@ def gen_docroot(ctx):
             s = b"".join(rng.choice(PATH_ALPHA + [b"x", b"X"]) for _ in range(rng.randint(1, 10)))
         s = s.replace(b"\x00", b"")
         xd = rng.choice(XDOCS)
+        # a third of the cases: the backend response already carries a status of its own when the header is
+        # processed (Status: 403 / 502 / 404 ... next to X-Sendfile) - a refusal must not hide behind it
+        st = rng.choice(XSF_STATUSES) if rng.random() < 0.34 else None
         if rng.random() < 0.7:
-            L.append(jn("xsf", str(rng.randint(0, 1)), C.hx(s), *[C.hx(x) for x in xd]))
+            if st is None:
+                L.append(jn("xsf", str(rng.randint(0, 1)), C.hx(s), *[C.hx(x) for x in xd]))
+            else:
+                L.append(jn("xsfs", str(rng.randint(0, 1)), str(st), C.hx(s), *[C.hx(x) for x in xd]))
         else:
             v = rng.choice([b"", b" ", b"  "]) + s + rng.choice([b" 0-10", b" 0-", b"", b" ", b" 5-3,/x/b 0-1"])
-            L.append(jn("xsf2", str(rng.randint(0, 1)), C.hx(v), *[C.hx(x) for x in xd]))
+            if st is None:
+                L.append(jn("xsf2", str(rng.randint(0, 1)), C.hx(v), *[C.hx(x) for x in xd]))
+            else:
+                L.append(jn("xsfs2", str(rng.randint(0, 1)), str(st), C.hx(v), *[C.hx(x) for x in xd]))
+    # every refusal status x every shape of value, exhaustively small: the status lighttpd uses to signal a
+    # refusal (403, 502) preset by the backend, with values inside / outside / blank / not UTF-8
+    for st in XSF_STATUSES:
+        for lc in "01":
+            for xd in XDOCS:
+                for s in (b"/x/a", b"/x/../y", b"/y/z", b"", b"/x/%ff", b"/X/a", b"/x", b"x/a", b"/x/a/../../etc/passwd"):
+                    L.append(jn("xsfs", lc, str(st), C.hx(s), *[C.hx(x) for x in xd]))
+                    L.append(jn("xsfs2", lc, str(st), C.hx(s + b" 0-1"), *[C.hx(x) for x in xd]))
     S["x-sendfile"] = L
     # ---- WebDAV Destination
     L = []
@@ -459,11 +477,12 @@ def oracle_docroot(line, out):
                 v = lex_under(bp, p)
                 if v:
                     return "mod_userdir: " + v
-    elif op in ("xsf", "xsf2"):
-        if o[0] == "send" and len(t) > 3:
+    elif op in ("xsf", "xsf2", "xsfs", "xsfs2"):
+        k = 4 if op.startswith("xsfs") else 3
+        if o[0] == "send" and len(t) > k:
             p = C.unhx(o[1])
             lc = t[1] == "1"
-            xs = [C.unhx(x) for x in t[3:]]
+            xs = [C.unhx(x) for x in t[k:]]
             if not any((p.lower().startswith(x.lower()) if lc else p.startswith(x)) for x in xs):
                 return "X-Sendfile path not under x-sendfile-docroot"
             v = canonical_abs(p)
@@ -505,6 +524,8 @@ def classify_docroot(line, out):
         return "userdir:%s:%s:%s" % (t[1], t[2], o[0])
     if op in ("xsf", "xsf2"):
         return "%s:%s:x%d:%s" % (op, t[1], len(t) - 3, " ".join(o[:2]) if o[0] == "st" else "send")
+    if op in ("xsfs", "xsfs2"):
+        return "%s:%s:x%d:in%s:%s" % (op, t[1], len(t) - 4, t[2], " ".join(o[:2]) if o[0] == "st" else "send")
     if op == "davdst":
         return "davdst:%s:%s" % (t[1], " ".join(o[:2]) if o[0] == "st" else "ok")
     return op
@@ -1173,9 +1194,10 @@ def e2e_static(ctx, bd, name, cfg, n):
 
 # ---- X-Sendfile through a CGI
 XS_PL = b'''#!/usr/bin/perl
-my $v = $ENV{QUERY_STRING};
+my ($v, $st) = split(/\\./, $ENV{QUERY_STRING});
+$st = 200 unless $st;
 $v =~ s/([0-9a-f]{2})/chr(hex($1))/ge;
-print "Status: 200\\r\\nContent-Type: text/plain\\r\\nX-Sendfile: $v\\r\\n\\r\\nnot-sent";
+print "Status: $st\\r\\nContent-Type: text/plain\\r\\nX-Sendfile: $v\\r\\n\\r\\nnot-sent";
 '''
 
 
@@ -1219,6 +1241,15 @@ def e2e_xsendfile(ctx, bd, n):
                 return (None, str(ex).encode(), [])
         with ThreadPoolExecutor(8) as ex:
             obs = list(ex.map(one, vals))
+        # second pass (evaluated below): the CGI puts a status of its own next to X-Sendfile
+        vs = [(v, st) for v in vals[:22] + rng.sample(vals[22:], min(len(vals) - 22, 40)) for st in (403, 502, 404, 500)]
+        def one2(a):
+            try:
+                return _h1_get(srv.port, b"localhost", b"/xs.pl?" + a[0].hex().encode() + b"." + str(a[1]).encode())
+            except OSError as ex:
+                return (None, str(ex).encode(), [])
+        with ThreadPoolExecutor(8) as ex:
+            obs2 = list(ex.map(one2, vs))
         alive = srv.alive()
     rep = srv.sanitizer_report()
     if rep or not alive:
@@ -1258,6 +1289,33 @@ def e2e_xsendfile(ctx, bd, n):
             e2e_report(ctx, "e2e-xsendfile", {"cfg": "xsendfile", "value": v}, line, pred, ob, ov, cv)
     ctx.streams.append({"name": "e2e-xsendfile", "cases": len(vals), "disagreements": ndis, "oracle_hits": nor,
                         "wall_s": round(time.time() - t0, 2)})
+    # second pass: the CGI puts a status of its own next to X-Sendfile (Status: 403 / 502 / 404 / 500) - the
+    # statuses lighttpd itself uses to signal a refusal must not mask one
+    lines2 = [jn("xsfs", "0", str(st), C.hx(v), C.hx(xdoc)) for v, st in vs]
+    out2, rc, err = C.run_model("url", lines2)
+    if rc != 0 or len(out2) != len(lines2):
+        ctx.broken.append({"kind": "model-run", "names": ["url"], "log": err[-2000:]})
+        return
+    nor2 = ndis2 = 0
+    for (v, st), line, pred, ob in zip(vs, lines2, out2, obs2):
+        status, body, headers = ob
+        ctx.evaluations += 1
+        f = body[5:].rstrip(b"\n") if body.startswith(b"FILE:") else None
+        ctx.keys["e2e:xsendfile-status:%d:%s:%s" % (st, pred if pred.startswith("st") else "send", "file" if f else status)] += 1
+        ctx.dist["e2e:xsendfile-status:%d" % st] += 1
+        ov = cv = None
+        if b"CANARY" in body + b"".join(k + x for k, x in headers):
+            ov = "canary content served through X-Sendfile in a response with backend status %d" % st
+        elif f is not None and not _under(f, xsroot):
+            ov = "X-Sendfile served a file outside x-sendfile-docroot (backend status %d): %s" % (st, f.decode("latin-1"))
+        elif status is not None and pred.startswith("st") and f is not None:
+            cv = "model refuses (%s), server sent %s" % (pred, f.decode("latin-1"))
+        if ov or cv:
+            nor2 += 1 if ov else 0
+            ndis2 += 1 if cv else 0
+            e2e_report(ctx, "e2e-xsendfile-status", {"cfg": "xsendfile", "value": v, "backend_status": st}, line, pred, ob, ov, cv)
+    ctx.streams.append({"name": "e2e-xsendfile-status(CGI sets Status itself)", "cases": len(vs), "disagreements": ndis2,
+                        "oracle_hits": nor2, "wall_s": round(time.time() - t0, 2)})
 
 
 # ---- WebDAV COPY / MOVE Destination
